@@ -145,6 +145,96 @@ func c09Eval(cs C09Case) string {
 	})
 }
 
+// C09Hist is a history of registrations and dispatches on one ServeMux: op i in 0..7
+// registers key i (again) with a fresh handler, op 8 dispatches the message.
+type C09Hist struct {
+	Msg int
+	Req bool
+	Ops []int
+}
+
+func (h C09Hist) Desc() string {
+	m := c09Msgs[h.Msg]
+	var ops []string
+	for _, o := range h.Ops {
+		if o == 8 {
+			ops = append(ops, "dispatch")
+		} else {
+			ops = append(ops, "register("+c09Keys[o]+")")
+		}
+	}
+	return fmt.Sprintf("message app=%d code=%d request=%v history: %s", m.App, m.Code, h.Req, strings.Join(ops, ", "))
+}
+
+// c09HistEval replays a history on a real ServeMux and on the reference model (a map from key
+// to the latest handler), comparing every dispatch.
+func c09HistEval(h C09Hist) string {
+	return safely(func() string {
+		m := c09Msgs[h.Msg]
+		mux := diam.NewServeMux()
+		var fired []string
+		model := map[string]string{}
+		gen := 0
+		flags := uint8(0)
+		if h.Req {
+			flags = 0x80
+		}
+		for step, o := range h.Ops {
+			if o < 8 {
+				gen++
+				tag := fmt.Sprintf("%s#%d", c09Keys[o], gen)
+				hf := diam.HandlerFunc(func(c diam.Conn, msg *diam.Message) { fired = append(fired, tag) })
+				switch c09Keys[o] {
+				case "idxK":
+					mux.HandleIdx(diam.CommandIndex{AppID: m.App, Code: m.Code, Request: h.Req}, hf)
+				case "idxOtherApp":
+					mux.HandleIdx(diam.CommandIndex{AppID: m.OtherApp, Code: m.Code, Request: h.Req}, hf)
+				case "idxOtherCode":
+					mux.HandleIdx(diam.CommandIndex{AppID: m.App, Code: m.OtherCode, Request: h.Req}, hf)
+				case "idxOtherR":
+					mux.HandleIdx(diam.CommandIndex{AppID: m.App, Code: m.Code, Request: !h.Req}, hf)
+				case "nameK":
+					mux.Handle(m.Short+suffix(h.Req), hf)
+				case "nameOtherSuffix":
+					mux.Handle(m.Short+suffix(!h.Req), hf)
+				case "nameOtherCmd":
+					mux.Handle(m.OtherName+suffix(h.Req), hf)
+				case "ALL":
+					mux.Handle("ALL", hf)
+				}
+				model[c09Keys[o]] = tag
+				continue
+			}
+			fired = nil
+			mux.ServeDIAM(nil, diam.NewMessage(m.Code, flags, m.App, 1, 2, dict.Default))
+			reports := 0
+			for {
+				select {
+				case <-mux.ErrorReports():
+					reports++
+					continue
+				default:
+				}
+				break
+			}
+			want := ""
+			for _, k := range []string{"idxK", "nameK", "ALL"} {
+				if t, ok := model[k]; ok {
+					want = t
+					break
+				}
+			}
+			if got := strings.Join(fired, "+"); got != want {
+				return fmt.Sprintf("step %d: handler(s) fired: [%s], the most recent registrations select [%s]", step, got, want)
+			}
+			if (want == "") != (reports == 1) || reports > 1 {
+				return fmt.Sprintf("step %d: selected [%s] and %d error reports were offered", step, want, reports)
+			}
+		}
+		return ""
+	})
+}
+
 func indexOf(l []string, s string) int {
 	for i, x := range l {
 		if x == s {
@@ -183,12 +273,52 @@ func runC09(ctx *ev.Ctx) {
 			}
 		}
 	}
+	// histories of registrations and dispatches (every dispatch is checked): all sequences of
+	// <=4 operations over {register key 0..7 with a fresh handler, dispatch} that contain a dispatch
+	hn := 0
+	maxLen := 5
+	if ctx.Tier == "thorough" {
+		maxLen = 6
+	}
+	for mi := range c09Msgs {
+		for _, req := range []bool{true, false} {
+			var rec func(cur []int)
+			rec = func(cur []int) {
+				if len(cur) > 0 && cur[len(cur)-1] == 8 {
+					h := C09Hist{Msg: mi, Req: req, Ops: append([]int{}, cur...)}
+					ctx.Eval(ev.HS(h.Desc()))
+					if hn%20000 == 0 {
+						ctx.Sample(h.Desc())
+					}
+					hn++
+					if what := c09HistEval(h); what != "" {
+						ctx.Report("", generalise(what), what+" | case: "+h.Desc(), map[string]interface{}{"hist": h})
+					}
+				}
+				if len(cur) == maxLen {
+					return
+				}
+				for o := 0; o <= 8; o++ {
+					rec(append(cur, o))
+				}
+			}
+			rec(nil)
+		}
+	}
+	ctx.Set("histories", hn)
 	ctx.Set("distinct_selected_handlers", len(outcomes)+1)
-	ctx.Rule = "complete decision table: for 4 commands (base CE, application CC, RA under Gx which redefines it, RA under S6a which resolves through the base dictionary) x request/answer: all 2^8 subsets of the registrations {index K, index with other application, other code, other R bit, name of K, name with the other suffix, name of another command, ALL}, and every single re-registration of a present key with a second handler; the handler that fires and the number of error reports are compared with the reference decision (index, then name, then catch-all, else exactly one report)."
+	ctx.Rule = "histories: every sequence of <=5 (thorough 6) operations over {register one of the eight keys with a fresh handler, dispatch} ending in a dispatch, replayed on one ServeMux with every dispatch compared with a reference model (map key -> latest handler; index, then name, then catch-all); AND the complete decision table: for 4 commands (base CE, application CC, RA under Gx which redefines it, RA under S6a which resolves through the base dictionary) x request/answer: all 2^8 subsets of the registrations {index K, index with other application, other code, other R bit, name of K, name with the other suffix, name of another command, ALL}, and every single re-registration of a present key with a second handler; the handler that fires and the number of error reports are compared with the reference decision (index, then name, then catch-all, else exactly one report)."
 	ctx.Assume = []string{"restricted to commands the dictionary defines (incoming messages have passed ReadMessage)"}
 }
 
 func replayC09(ctx *ev.Ctx, raw json.RawMessage) string {
+	var hh struct {
+		Hist *C09Hist `json:"hist"`
+	}
+	if json.Unmarshal(raw, &hh) == nil && hh.Hist != nil {
+		fmt.Println("  case:", hh.Hist.Desc())
+		return c09HistEval(*hh.Hist)
+	}
 	var cs C09Case
 	if err := json.Unmarshal(raw, &cs); err != nil {
 		ev.Infra("replay: %v", err)
